@@ -160,7 +160,7 @@ def main(argv=None) -> int:
     n = common.ncpu() * 4
     mt = universe.meta(5 if thorough else 4)
     merge(chk, par.pmap(rust_chunk, par.chunks(mt, n)), 'rust_', agg)
-    size = 4 if thorough else 3
+    size = 4
     from . import bridge
     S = bridge.repo_universe(size, extra_meta=True)
     merge(chk, par.pmap(py_chunk, [(ch, size) for ch in par.chunks(list(range(len(S))), n)]), 'py_', agg)
